@@ -133,7 +133,7 @@ OpenFileRefs(dh, nm, nmok, mode, nospace) ==
         IN IF i = 0
            THEN (IF mode \in CreateModes THEN (IF nospace THEN SpaceErrs ELSE {}) ELSE {"NotFound"})
            ELSE LET e == dirs[r.vol][r.id][i] IN
-                  (IF e.k = "dir" THEN {"*"} ELSE {})
+                  (IF e.k \in {"dir", "label"} THEN {"*"} ELSE {})       \* a directory or the volume label is not a file
              \cup (IF IsOpenFile(r.vol, r.id, nm) THEN {"*"} ELSE {})
              \cup (IF mode = "Create" THEN {"*"} ELSE {})
              \cup (IF e.ro /\ mode # "ReadOnly" THEN {"*"} ELSE {}))
@@ -222,7 +222,7 @@ DeleteRefs(dh, nm, nmok) ==
   LET r == RecOf(odirs, dh)
       i == EntIdx(r.vol, r.id, nm)
   IN IF i = 0 THEN {"NotFound"}
-     ELSE (IF dirs[r.vol][r.id][i].k = "dir" THEN {"*"} ELSE {})
+     ELSE (IF dirs[r.vol][r.id][i].k \in {"dir", "label"} THEN {"*"} ELSE {})
        \cup (IF IsOpenFile(r.vol, r.id, nm) THEN {"*"} ELSE {})
 DeletePost(dh, nm) ==
   LET r == RecOf(odirs, dh) IN
